@@ -72,7 +72,40 @@ var (
 	vC02AuthOutbound atomic.Uint64
 )
 
-func vC02AuthCase(t *testing.T, tr *vC02Trace, g *vC02Gen, zin *vC02Zone, useNSEC3 bool) {
+// vC02ZoneKey: a fresh ECDSA zone key whose key tag is not 0.  miekg's RRSIG.Sign refuses KeyTag == 0 ("dns: bad
+// key"), so one generated key in 65 536 made the fixture helper randomQSignRRSet end the driver (seen once in ~300
+// runs: "sign y.c. DNSKEY: dns: bad key"); the key material is random anyway, drawing again changes nothing the
+// check states
+func vC02ZoneKey(t testing.TB, zone string) (*dns.DNSKEY, crypto.PrivateKey) {
+	for {
+		key, priv := randomQZoneKey(t, zone)
+		if key.KeyTag() != 0 {
+			return key, priv
+		}
+	}
+}
+
+// vC02TB hands the repository's fixture helpers (key generation, signing) a testing.TB whose Fatalf leaves its
+// message in the trace before it ends the driver: a driver that dies this way is reported by check.py as broken
+// (exit 1), and the trace then says why (this is how the key-tag-0 failure above was identified)
+type vC02TB struct {
+	testing.TB
+	tr   *vC02Trace
+	what string
+}
+
+func (v *vC02TB) Fatalf(format string, args ...any) {
+	v.tr.emit(map[string]any{"k": v.what + "-driver-fatal", "desc": fmt.Sprintf(format, args...)})
+	v.TB.Fatalf(format, args...)
+}
+
+func (v *vC02TB) Fatal(args ...any) {
+	v.tr.emit(map[string]any{"k": v.what + "-driver-fatal", "desc": fmt.Sprint(args...)})
+	v.TB.Fatal(args...)
+}
+
+func vC02AuthCase(t0 *testing.T, tr *vC02Trace, g *vC02Gen, zin *vC02Zone, useNSEC3 bool) {
+	var t testing.TB = &vC02TB{TB: t0, tr: tr, what: "auth"}
 	r := g.r
 	z := zin
 	if useNSEC3 { // an NSEC3-signed zone has no NSEC RRsets
@@ -89,7 +122,7 @@ func vC02AuthCase(t *testing.T, tr *vC02Trace, g *vC02Gen, zin *vC02Zone, useNSE
 		z.index()
 	}
 	zoneStr := vC02Pres(z.apex)
-	key, priv := randomQZoneKey(t, zoneStr)
+	key, priv := vC02ZoneKey(t, zoneStr)
 	sign := func(rr dns.RR) *dns.RRSIG { return randomQSignRRSet(t, key, priv, []dns.RR{rr}) }
 
 	cfg := &config.Config{DNSSEC: "on", Maxdepth: 30, MaxConcurrentQueries: 16, Timeout: config.Duration{Duration: time.Second}}
@@ -125,7 +158,7 @@ func vC02AuthCase(t *testing.T, tr *vC02Trace, g *vC02Gen, zin *vC02Zone, useNSE
 	var recsN []vC02Rec
 	var recs3 []vC02Rec3
 	var genuine []bool
-	var signedBy []int  // NSEC branch only, see below
+	var signedBy []int  // per record: 0 = the zone's key, 1 = another zone's key, 2 = no RRSIG
 	foreignZone := ""
 	params := vC02Params{iter: []uint16{0, 0, 1}[r.Intn(3)], salt: []string{"", "ab"}[r.Intn(2)]}
 	kind := "full"
@@ -154,7 +187,72 @@ func vC02AuthCase(t *testing.T, tr *vC02Trace, g *vC02Gen, zin *vC02Zone, useNSE
 			genuine[i] = false
 			polluted = "optout-flip"
 		}
-		r.Shuffle(len(recs3), func(i, j int) { recs3[i], recs3[j] = recs3[j], recs3[i]; genuine[i], genuine[j] = genuine[j], genuine[i] })
+		// session 5: records that do NOT carry a signature of the zone's key, as in the NSEC branch below: a child
+		// zone's NSEC3 chain under the child's key (owners hash.child.zone lie inside the signer zone), a sibling
+		// zone's chain under the sibling's key (owners outside), an in-zone record shipped without a signature
+		signedBy = make([]int, len(recs3))
+		if polluted == "" && r.Intn(3) == 0 {
+			switch r.Intn(6) {
+			case 0, 1, 2:
+				var cuts []vC02Node
+				for _, nd := range z.nodes {
+					if vC02Has(nd.types, dns.TypeNS) && !vC02Has(nd.types, dns.TypeSOA) {
+						cuts = append(cuts, nd)
+					}
+				}
+				if len(cuts) > 0 {
+					nd := cuts[r.Intn(len(cuts))]
+					cz := g.genZone(nd.name, 2+r.Intn(3))
+					child := &vC02Zone{apex: cz.apex}
+					for _, cn := range cz.nodes {
+						var ts []uint16
+						for _, ty := range cn.types {
+							if ty != dns.TypeNSEC {
+								ts = append(ts, ty)
+							}
+						}
+						child.nodes = append(child.nodes, vC02Node{cn.name, ts})
+					}
+					child.index()
+					foreignZone = vC02Pres(child.apex)
+					cchain, _ := g.nsec3Chain(child, params, false, false)
+					for _, rc := range cchain {
+						if r.Intn(4) > 0 {
+							rc.note = "child"
+							recs3 = append(recs3, rc)
+							genuine = append(genuine, false)
+							signedBy = append(signedBy, 1)
+							polluted = "child-signed"
+						}
+					}
+				}
+			case 3:
+				sib := append([]byte(nil), z.apex[0]...)
+				sib[len(sib)-1] ^= 1
+				sz := &vC02Zone{apex: vC02Child(sib, z.apex[1:])}
+				sz.nodes = []vC02Node{{sz.apex, []uint16{dns.TypeNS, dns.TypeSOA, dns.TypeRRSIG, dns.TypeDNSKEY}}, {vC02Child([]byte("a"), sz.apex), []uint16{dns.TypeA, dns.TypeRRSIG}}}
+				sz.index()
+				foreignZone = vC02Pres(sz.apex)
+				schain, _ := g.nsec3Chain(sz, params, false, false)
+				for _, rc := range schain {
+					rc.note = "sibling"
+					recs3 = append(recs3, rc)
+					genuine = append(genuine, false)
+					signedBy = append(signedBy, 1)
+					polluted = "sibling-signed"
+				}
+			default:
+				if len(recs3) > 0 {
+					signedBy[r.Intn(len(recs3))] = 2
+					polluted = "unsigned"
+				}
+			}
+		}
+		r.Shuffle(len(recs3), func(i, j int) {
+			recs3[i], recs3[j] = recs3[j], recs3[i]
+			genuine[i], genuine[j] = genuine[j], genuine[i]
+			signedBy[i], signedBy[j] = signedBy[j], signedBy[i]
+		})
 		for _, rc := range recs3 {
 			rrs = append(rrs, rc.rr())
 		}
@@ -269,7 +367,7 @@ func vC02AuthCase(t *testing.T, tr *vC02Trace, g *vC02Gen, zin *vC02Zone, useNSE
 	var fkey *dns.DNSKEY
 	var fpriv crypto.PrivateKey
 	if foreignZone != "" {
-		fkey, fpriv = randomQZoneKey(t, foreignZone)
+		fkey, fpriv = vC02ZoneKey(t, foreignZone)
 	}
 	var denial []dns.RR
 	denial = append(denial, soa, soaSig)
@@ -401,7 +499,14 @@ func vC02AuthCase(t *testing.T, tr *vC02Trace, g *vC02Gen, zin *vC02Zone, useNSE
 			zones[i] = recs3[i].zone
 		}
 		rcoq, tcoq := vC02Nsec3Coq(rrs, zones, tabNames, params)
-		coq = fmt.Sprintf("(CaseAuthNsec3 %s %s [%s] %s [%s] %v [%s])%%N", z.coq(), vC02Coq(z.apex), strings.Join(rcoq, ";"), vC02CoqInts(kept),
+		var scoq []string
+		for i := range recs3 {
+			scoq = append(scoq, fmt.Sprint(signedBy[i] == 0))
+			if signedBy[i] != 0 {
+				rdesc[i] += fmt.Sprintf("  [%s: signedBy=%d]", recs3[i].note, signedBy[i])
+			}
+		}
+		coq = fmt.Sprintf("(CaseAuthNsec3 %s %s [%s] [%s] %s [%s] %v [%s])%%N", z.coq(), vC02Coq(z.apex), strings.Join(rcoq, ";"), strings.Join(scoq, ";"), vC02CoqInts(kept),
 			strings.Join(tcoq, ";"), allGenuine, strings.Join(pcoq, ";"))
 	} else {
 		var rcoq []string
